@@ -1,6 +1,6 @@
 (* Decoding of C14 cases and verdicts. *)
 From Coq Require Import List NArith Bool.
-From FS Require Import Sx Model.Path Model.Stat Model.Tree Model.Converge.
+From FS Require Import Sx Model.Path Model.Stat Model.Tree Model.Converge Model.Fs Model.RootPath Model.CopyFs Glue.C03G.
 Import ListNotations.
 Open Scope bool_scope.
 
@@ -31,4 +31,164 @@ Definition run_1401 (input impl : sx) : sx :=
     | _, _, _ => v_malformed
     end
   | _ => v_malformed
+  end.
+
+(* ---------------------------------------------------------------------------------------
+   kind 1403: input = (ops root path follow); impl = (op-results snapshot rp) where the ops
+   (encoding of kind 0301) built a tree in an empty jail, the snapshot was taken by an lstat
+   walk, and rp is what the REAL copy.rootPath returned: (0 path) | (1 code).
+   Model: the same ops run on Model/Fs.v, then Model/RootPath.copy_root_path.
+   Specification (theorem rootpath_result_link_free), evaluated on the implementation's result
+   against the implementation's snapshot, without path resolution: the result is root followed
+   by names only (no "." / ".." / empty component), and no prefix of it strictly below root
+   is a symbolic link in the snapshot (the final name is exempt when follow = false). *)
+Definition enc_rp (r : bytes + rp_err) : sx :=
+  match r with
+  | inl p => SL [SN 0; SB p]
+  | inr RpTooManyLinks => SL [SN 1; SN 999]
+  | inr (RpErrno e) => SL [SN 1; SN (errno_code e)]
+  | inr RpFuel => SL [SN 1; SN 997]
+  end.
+
+Definition snap_type (snap : list sx) (p : bytes) : option N :=
+  match find (fun e => match e with SL (SB q :: _) => bytes_eqb p q | _ => false end) snap with
+  | Some (SL [_; _; SL (SN t :: _)]) => Some t
+  | _ => None
+  end.
+
+(* prefixes [c1], [c1;c2], ... of a component list *)
+Fixpoint prefixes_from (acc : list bytes) (cs : list bytes) : list (list bytes) :=
+  match cs with
+  | [] => []
+  | c :: r => (acc ++ [c]) :: prefixes_from (acc ++ [c]) r
+  end.
+
+Definition rp_spec (snap : list sx) (root out : bytes) (follow : bool) : bool :=
+  has_prefix root out &&
+  (let rest := skipn (length root) out in
+   (bytes_eqb root [sep] || is_nil rest || is_abs rest) &&
+   (let cs := pcs rest in
+    let rcs := pcs root in
+    forallb name_ok cs &&
+    bytes_eqb out (render (rcs ++ cs)) &&
+    (let pre := prefixes_from [] cs in
+     let checked := if follow then pre else removelast pre in
+     forallb (fun p => match snap_type snap (joinc (rcs ++ p)) with
+                       | Some 40960 => false
+                       | _ => true
+                       end) checked))).
+
+(* 4th component (follow = true only): what the kernel answers to chroot(root); chdir(Join("/",
+   path)); getcwd() — (0 cwd) | (1 errno) — against Fs.resolve with the process root set to
+   root.  It is NOT part of the specification: RootPath deviates from it (theorem
+   rootpath_is_chroot_resolution_refuted); the generator counts how often. *)
+Definition enc_cw (r : bytes + errno) : sx :=
+  match r with inl p => SL [SN 0; SB p] | inr e => SL [SN 1; SN (errno_code e)] end.
+
+Definition run_1403 (input impl : sx) : sx :=
+  match input with
+  | SL [SL ops; SB root; SB path; fl] =>
+    match sx_bool fl, run_ops (ctx_init, fs_init) ops [] with
+    | Some follow, Some (f, rs) =>
+      let cw := if follow then
+                  match resolve_ino ctx_init f root true with
+                  | inl ri => enc_cw (chroot_cwd f ri (join2 [sep] path))
+                  | inr e => SL [SN 1; SN (errno_code e)]
+                  end
+                else SL [] in
+      let model := SL [SL rs; enc_snapshot (snapshot_from f 1);
+                       enc_rp (copy_root_path ctx_init f root path follow); cw] in
+      match impl with
+      | SL [_; SL snap; SL [SN 0; SB out]; _] =>
+        let ok := rp_spec snap root out follow in
+        verdict model impl ok (SL [SN 1])
+      | SL [_; SL _; SL [SN 1; SN _]; _] => verdict model impl true (SL [])
+      | _ => v_malformed
+      end
+    | _, _ => v_malformed
+    end
+  | _ => v_malformed
+  end.
+
+(* ---------------------------------------------------------------------------------------
+   kind 1404: input = (ops srcRoot src dstRoot dst opts);
+   impl = (op-results snapshot-before matches err snapshot-after (dino-before dino-after)).
+   Model: the ops on Model/Fs.v, then Model/CopyFs.copy_top with the matches the real
+   ResolveWildcards returned; compared: error-or-not and the snapshot of the WHOLE jail afterwards.
+   Specification (copy_contained), evaluated on the implementation's two snapshots without the
+   model: every entry whose path is not strictly below dstRoot and is not dstRoot itself is
+   unchanged (same paths, same records: type, mode, owner, mtime, rdev, target, xattrs, content —
+   this covers inodes that are also hard-linked into the destination), the hard-link partition
+   among those entries is unchanged, and dstRoot is still the same directory inode. *)
+Definition dec_opt2 (s : sx) : option (option (N * N)) :=
+  match s with SL [] => Some None | SL [SN a; SN b] => Some (Some (a, b)) | _ => None end.
+Definition dec_opt1 (s : sx) : option (option N) :=
+  match s with SL [] => Some None | SL [SN a] => Some (Some a) | _ => None end.
+
+Definition dec_copts (s : sx) : option (copts * bool) :=
+  match s with
+  | SL [fl; wi; ar; dc; ch; ut; mo] =>
+    fl <- sx_bool fl ;; wi <- sx_bool wi ;; ar <- sx_bool ar ;; dc <- sx_bool dc ;;
+    ch <- dec_opt2 ch ;; ut <- dec_opt1 ut ;; mo <- dec_opt1 mo ;;
+    Some ({| o_follow := fl; o_always_replace := ar; o_dir_contents := dc;
+             o_chown := ch; o_utime := ut; o_mode := mo |}, wi)
+  | _ => None
+  end.
+
+Definition dec_matches (s : sx) : option (option (list bytes)) :=
+  match s with
+  | SL [] => Some None
+  | SL [SN 1] => Some (Some [])          (* ResolveWildcards failed: Copy returns at the same point as for no match *)
+  | SL [SN 0; SL l] => l' <- omap sx_B l ;; Some (Some l')
+  | _ => None
+  end.
+
+(* path strictly below root (both relative to the jail, no leading separator), or root itself *)
+Definition below_or_eq (root p : bytes) : bool :=
+  bytes_eqb root p || has_prefix (root ++ [sep]) p.
+
+Definition snap_entry (e : sx) : option (bytes * N * sx) :=
+  match e with SL [SB p; SN cls; rec] => Some (p, cls, rec) | _ => None end.
+
+Definition outside_entries (root : bytes) (snap : list (bytes * N * sx)) : list (bytes * N * sx) :=
+  filter (fun e => negb (below_or_eq root (fst (fst e)))) snap.
+
+(* same partition: two entries share a class before iff they share one after (lists aligned) *)
+Fixpoint same_partition (a b : list N) : bool :=
+  match a, b with
+  | [], [] => true
+  | x :: a', y :: b' =>
+    forallb (fun xy => Bool.eqb (N.eqb x (fst xy)) (N.eqb y (snd xy))) (combine a' b') && same_partition a' b'
+  | _, _ => false
+  end.
+
+Definition outside_unchanged (root : bytes) (before after : list sx) : bool :=
+  match omap snap_entry before, omap snap_entry after with
+  | Some b, Some a =>
+    let ob := outside_entries root b in
+    let oa := outside_entries root a in
+    sx_eqb (SL (map (fun e => SL [SB (fst (fst e)); snd e]) ob)) (SL (map (fun e => SL [SB (fst (fst e)); snd e]) oa))
+    && same_partition (map (fun e => snd (fst e)) ob) (map (fun e => snd (fst e)) oa)
+  | _, _ => false
+  end.
+
+Definition copy_fuel : nat := 64.
+
+Definition run_1404 (input impl : sx) : sx :=
+  match input, impl with
+  | SL [SL ops; SB sroot; SB src; SB droot; SB dst; o],
+    SL [_; SL sb; ms; SN err; SL sa; SL [SN di0; SN di1]] =>
+    match dec_copts o, dec_matches ms, run_ops (ctx_init, fs_init) ops [] with
+    | Some (opts, wild), Some matches, Some (f, rs) =>
+      let m := if wild then match matches with Some l => Some l | None => Some [] end else None in
+      let '(s', res) := copy_top copy_fuel ctx_init opts sroot src droot dst m (cst_init f) in
+      let code := match res with inl _ => 0 | inr 4 => 9 | inr _ => 1 end%N in
+      let model := SL [SL rs; enc_snapshot (snapshot_from f 1); ms; SN code;
+                       enc_snapshot (snapshot_from (s_fs s') 1); SL [SN di0; SN di1]] in
+      let rel := match droot with a :: r => if N.eqb a sep then r else droot | [] => [] end in
+      let ok := outside_unchanged rel sb sa && N.eqb di0 di1 && negb (N.eqb di0 0) && N.leb err 1 in
+      verdict model impl ok (SL [SN (if outside_unchanged rel sb sa then 0 else 1); SN di0; SN di1; SN err])
+    | _, _, _ => v_malformed
+    end
+  | _, _ => v_malformed
   end.
